@@ -208,3 +208,76 @@ Definition run_fso (ts : list str) : str :=
       end
   | [] => s_bad
   end.
+
+(* fsf <segsize> <fault> <fsop>*   the fs-layer model under one injected syscall
+                                  failure [fs_xtrace]; observation: per call its
+                                  syscalls (failed ones prefixed by '!', the
+                                  directory open as oD) followed by =ok | =err
+   fault: - | <syscall>:<errno>:<k>   the k-th (1-based, hex) injectable call of
+   <syscall> (openat fallocate pwrite64 fsync fdatasync unlinkat renameat) fails
+   with <errno> (EIO ENOSPC EMFILE; the model does not depend on it) *)
+Definition t_openat : str := [111;112;101;110;97;116].
+Definition t_fallocate : str := [102;97;108;108;111;99;97;116;101].
+Definition t_pwrite64 : str := [112;119;114;105;116;101;54;52].
+Definition t_fsync : str := [102;115;121;110;99].
+Definition t_fdatasync : str := [102;100;97;116;97;115;121;110;99].
+Definition t_unlinkat : str := [117;110;108;105;110;107;97;116].
+Definition t_renameat : str := [114;101;110;97;109;101;97;116].
+Definition t_EIO : str := [69;73;79].
+Definition t_ENOSPC : str := [69;78;79;83;80;67].
+Definition t_EMFILE : str := [69;77;70;73;76;69].
+
+Definition parse_sclass (s : str) : option sclass :=
+  if str_eqb s t_openat then Some SOpenat
+  else if str_eqb s t_fallocate then Some SFallocate
+  else if str_eqb s t_pwrite64 then Some SPwrite
+  else if str_eqb s t_fsync then Some SFsync
+  else if str_eqb s t_fdatasync then Some SFdatasync
+  else if str_eqb s t_unlinkat then Some SUnlink
+  else if str_eqb s t_renameat then Some SRename
+  else None.
+
+Definition known_errno (s : str) : bool :=
+  str_eqb s t_EIO || str_eqb s t_ENOSPC || str_eqb s t_EMFILE.
+
+(* None = malformed; Some f = the fault *)
+Definition parse_fault (tok : str) : option fault :=
+  if str_eqb tok s_dash1 then Some None else
+  match fields tok with
+  | [c; e; k] =>
+      match parse_sclass c, hex_to_N k with
+      | Some c, Some k =>
+          if known_errno e && (1 <=? k) && (k <=? 4096) then Some (Some (c, N.to_nat (k - 1))) else None
+      | _, _ => None
+      end
+  | _ => None
+  end.
+
+Definition s_retok : str := [61; 111; 107].        (* "=ok"  *)
+Definition s_reterr : str := [61; 101; 114; 114].  (* "=err" *)
+Definition s_oD : str := [111; 68].                (* "oD"   *)
+Definition bang : N := 33.
+
+Definition show_xevent (x : xevent) : str :=
+  match x with
+  | XOk e => show_event e
+  | XFail e => bang :: show_event e
+  | XOpenDir true => s_oD
+  | XOpenDir false => bang :: s_oD
+  | XRet _ true => s_retok
+  | XRet _ false => s_reterr
+  end.
+
+Definition run_fsf (ts : list str) : str :=
+  match ts with
+  | seg :: flt :: ops =>
+      match hex_to_N seg, parse_fault flt, parse_all parse_fsop ops [] with
+      | Some seg, Some f, Some ops =>
+          match fs_xtrace seg ops f with
+          | [] => s_dash1
+          | t => join (map show_xevent t)
+          end
+      | _, _, _ => s_bad
+      end
+  | _ => s_bad
+  end.
